@@ -50,8 +50,10 @@ Record eopts := mk_eopts { o_name : bool; o_dtype : bool; o_class : bool; o_skip
 
 (* which arrays the both-missing mask combines: false = self, true = other;
    and the include_none flag handed to isna *)
-Record mcfg := mk_mcfg { m_left_other : bool; m_right_other : bool; m_include_none : bool }.
-Definition mcfg_correct : mcfg := mk_mcfg false true false.
+Record mcfg := mk_mcfg { m_left_other : bool; m_right_other : bool; m_include_none : bool;
+                         m_zero_ok : bool   (* TypeBlocks.equals answers True for two tables without columns
+                                               before it builds the Boolean TypeBlocks of == *) }.
+Definition mcfg_correct : mcfg := mk_mcfg false true false true.
 (* one mask configuration per place where the source builds a both-missing mask *)
 Record mcfgs := mk_mcfgs { c_tb : mcfg; c_series : mcfg; c_index : mcfg }.
 Definition mcfgs_correct : mcfgs := mk_mcfgs mcfg_correct mcfg_correct mcfg_correct.
@@ -406,6 +408,7 @@ Definition M_tb_equals (c : mcfg) (o : eopts) (a b : etb) : res bool :=
   if tb_oid a =? tb_oid b then Ok true
   else if negb ((tb_rows a =? tb_rows b) && (tb_ncols a =? tb_ncols b)) then Ok false
   else if o_dtype o && negb (list_eqb dtype_eqb (tb_dtypes a) (tb_dtypes b)) then Ok false
+  else if m_zero_ok c && (tb_ncols a =? 0) then Ok true
   else
     let (xa, xb) := operands (tb_blocks a) (tb_blocks b) in
     let eqs := map2 eq_block xa xb in
@@ -451,15 +454,16 @@ Definition M_bus_equals (c : mcfgs) (o : eopts) (a b : ebus) : res bool :=
 
 (* ------------------------------------------------------------------ M: HE variants *)
 (* hash(tuple(index.values)): a 2-D values array (hierarchy) yields rows that are arrays: unhashable *)
-Definition M_hash_axis (a : eaxis) : res (list val) :=
+(* uses_values = false: hash(tuple(index)), the labels themselves (tuples for a hierarchy) *)
+Definition M_hash_axis (uses_values : bool) (a : eaxis) : res (list val) :=
   match a with
   | AFlat i => Ok (map canon (ei_labels i))
-  | AHier _ => Err "TypeError"
+  | AHier h => if uses_values then Err "TypeError" else Ok (map canon (hier_labels h))
   end.
 
-Definition M_series_hash_key (a : eseries) : res (list val) := M_hash_axis (es_index a).
-Definition M_frame_hash_key (a : eframe) : res (list val * list val) :=
-  i <- M_hash_axis (ef_index a) ;; k <- M_hash_axis (ef_columns a) ;; Ok (i, k).
+Definition M_series_hash_key (uv : bool) (a : eseries) : res (list val) := M_hash_axis uv (es_index a).
+Definition M_frame_hash_key (uv : bool) (a : eframe) : res (list val * list val) :=
+  i <- M_hash_axis uv (ef_index a) ;; k <- M_hash_axis uv (ef_columns a) ;; Ok (i, k).
 
 (* ------------------------------------------------------------------ comparison helpers for cases *)
 Definition rb_eqb (a b : res bool) : bool := res_eqb Bool.eqb a b.
@@ -494,6 +498,9 @@ Definition M_he_check {K} (keqb : K -> K -> bool) (eq_ab eq_ba : res bool) (ka k
       rb_eqb (h_hash_eq ob) (Err e) && rz_eqb (h_set_len ob) (Err e) && rb_eqb (h_in_dict ob) (Err e)
   end.
 
+(* the documented meaning of HE ==: same labels, values and name; class and dtypes not compared *)
+Definition he_opts_doc : eopts := mk_eopts true false false true.
+
 (* what the property demands of the observation *)
 Definition S_he_check (seq_ab seq_ba : bool) (ob : he_obs) : bool :=
   rb_eqb (Ok seq_ab) (h_eq_ab ob) && rb_eqb (Ok seq_ba) (h_eq_ba ob) &&
@@ -504,3 +511,78 @@ Definition S_he_check (seq_ab seq_ba : bool) (ob : he_obs) : bool :=
   rb_eqb (h_in_dict ob) (Ok seq_ab).
 
 Definition key2_eqb (a b : list val * list val) : bool := vl_eqb (fst a) (fst b) && vl_eqb (snd a) (snd b).
+
+(* ------------------------------------------------------------------ guards of the refinement theorems *)
+(* (boolean, explicit, satisfiable; each is shown necessary by a witness in Refuted/C10.v) *)
+Definition is_nat (v : val) : bool := match v with VNaT => true | _ => false end.
+Definition has_nat (l : list val) : bool := existsb is_nat l.
+Definition is_kdt (k : okind) : bool := match k with KDt => true | _ => false end.
+Definition is_kobj (k : okind) : bool := match k with KObj => true | _ => false end.
+Definition kcol (c : dtype * list val) : okind * list val := (okind_of (fst c), snd c).
+
+(* NumPy does not rewrite NaT to None when these two arrays meet *)
+Definition col_inert (x y : okind * list val) : bool :=
+  negb (is_kdt (fst x) && is_kobj (fst y) && has_nat (snd x)) &&
+  negb (is_kdt (fst y) && is_kobj (fst x) && has_nat (snd y)).
+
+(* the mask the code builds at a position *)
+Definition gmask (c : mcfg) (x y : val) : bool :=
+  (if m_left_other c then isna_cell (m_include_none c) y else isna_cell (m_include_none c) x) &&
+  (if m_right_other c then isna_cell (m_include_none c) y else isna_cell (m_include_none c) x).
+
+(* ... marks exactly the positions where both sides are missing (needed only with skipna) *)
+Definition mask_dom (c : mcfg) (skipna : bool) (a b : list (list val)) : bool :=
+  negb skipna ||
+  forallb all_true (map2 (map2 (fun x y => Bool.eqb (gmask c x y) (nanlike x && nanlike y))) a b).
+
+Definition tb_vals (t : etb) : list (list val) := map snd (tb_cols t).
+
+(* every block has a column, every column has tb_rows cells *)
+Definition tb_wf (t : etb) : bool :=
+  forallb (fun b => 0 <? blk_width b) (tb_blocks t) &&
+  forallb (fun col => Z.of_nat (length col) =? tb_rows t) (tb_vals t).
+
+Definition no_nat (t : etb) : bool := negb (existsb has_nat (tb_vals t)).
+
+(* NaT is never rewritten to None on the way to the comparison *)
+Definition nat_dom (a b : etb) : bool :=
+  match tb_path (tb_blocks a) (tb_blocks b) with
+  | PValues => if is_kobj (row_kind (tb_blocks a)) || is_kobj (row_kind (tb_blocks b))
+               then no_nat a && no_nat b else true
+  | _ => all_true (map2 col_inert (map kcol (tb_cols a)) (map kcol (tb_cols b)))
+  end.
+
+Definition tb_dom (c : mcfg) (o : eopts) (a b : etb) : bool :=
+  tb_wf a && tb_wf b && (m_zero_ok c || (0 <? tb_ncols a)) &&
+  mask_dom c (o_skipna o) (tb_vals a) (tb_vals b) && nat_dom a b.
+
+Definition index_dom (c : mcfg) (o : eopts) (a b : eindex) : bool :=
+  mask_dom c (o_skipna o) [ei_labels a] [ei_labels b] &&
+  col_inert (okind_of (ei_dtype a), ei_labels a) (okind_of (ei_dtype b), ei_labels b).
+
+(* a nested flat axis; the same index object has the same content (it has: only NaN labels
+   compared without skipna could break it) *)
+Definition axis_dom (c : mcfg) (o : eopts) (a b : eaxis) : bool :=
+  match a, b with
+  | AFlat x, AFlat y => index_dom c o x y && implb (ei_oid x =? ei_oid y) (S_index_content o x y)
+  | _, _ => false
+  end.
+
+Definition series_dom (cs : mcfgs) (o : eopts) (a b : eseries) : bool :=
+  mask_dom (c_series cs) (o_skipna o) [es_values a] [es_values b] &&
+  col_inert (okind_of (es_dtype a), es_values a) (okind_of (es_dtype b), es_values b) &&
+  axis_dom (c_index cs) o (es_index a) (es_index b).
+
+Definition frame_dom (cs : mcfgs) (o : eopts) (a b : eframe) : bool :=
+  tb_dom (c_tb cs) o (ef_blocks a) (ef_blocks b) &&
+  implb (tb_oid (ef_blocks a) =? tb_oid (ef_blocks b)) (S_tb_content o (ef_blocks a) (ef_blocks b)) &&
+  axis_dom (c_index cs) o (ef_index a) (ef_index b) &&
+  axis_dom (c_index cs) o (ef_columns a) (ef_columns b).
+
+(* labels free of NaN/NaT (the property's quantifier puts missing values in cells, not labels) *)
+Definition axis_clean (a : eaxis) : bool :=
+  negb (existsb (fun v => match v with VTup l => existsb nanlike l | _ => nanlike v end) (axis_labels a)).
+
+Definition bus_dom (cs : mcfgs) (o : eopts) (a b : ebus) : bool :=
+  axis_dom (c_index cs) o (eb_index a) (eb_index b) &&
+  all_true (map2 (frame_dom cs o) (eb_frames a) (eb_frames b)).
